@@ -436,3 +436,11 @@ Fixpoint restart_iter (r : restart_src) (ss : nat -> option Q) (old n0 : Q) (f :
   | S f' => let '(nn1, lb1) := restart_iter r ss old n0 f' nn lb in
             let '(_, nn2, lb2) := run_restart r (ss f') old nn1 n0 lb1 in (nn2, lb2)
   end.
+
+(* ---------- what the slice sampler of the restart sees (options["use_slice_sampler"] = True) ----------
+   _get_samples_from_slice_sampler_(tmp_gp, ...) evaluates tmp_gp's objective on tmp_gp.X / tmp_gp.y — stored by the failed
+   fit (the rows handed to it) and NOT among the masked stores of the drop step — and on tmp_gp.s2, which IS among them.
+   The objective adds s2 to the diagonal of the N x N covariance: ValueError unless s2 is absent or has N entries. *)
+Definition sampler_sees (rows_at_fit : nat) (after_drop : lens) : nat * option nat := (rows_at_fit, l_tmp after_drop).
+Definition sampler_ok (v : nat * option nat) : bool :=
+  match snd v with Some m => Nat.eqb m (fst v) | None => true end.
